@@ -27,7 +27,8 @@ CORPUS_DIRS = ["tests/lang_parser", "tests/dataflows", "tests/control_flows", "t
                "tests/motivativing_examples", "tests/preprocessor", "tests/benchmarks", "tests/abc", "tests/arkTS",
                "tests/tmp", "tests/run", "src/lian/externs/mock"]
 BIG_CORPUS_DIRS = ["tests/real_cases"]          # thorough only (1000+ files of one vendored project)
-CORPUS_ROOT = "/repo"                            # inputs are always taken from the pristine checkout
+# inputs only (scratch copies made by tools/scratch_repo.sh link tests/ to the pristine checkout)
+CORPUS_ROOT = common.REPO if os.path.isdir(os.path.join(common.REPO, "tests")) else "/repo"
 
 
 def available_languages():
@@ -162,11 +163,19 @@ def build_batches(chk, langs, rng):
         if pool:
             add_batch([l], [rng.choice(pool)], mock=(j % 2 == 0), quiet=True, tag="single-file")
     if thorough:
-        # one very large project so that the GIR loader exports more than one bundle mid-run
+        # one very large project (> config.MAX_ROWS = 400 000 rows) so that the GIR loader exports more than one
+        # bundle mid-run; ~40 source bytes per row was measured on the corpora. Scheduled first: it is one process.
         l = "python" if "python" in langs else langs[0]
         pool = [s for s in originals[l] + mutants[l] if len(s.data) < 60_000]
         rng.shuffle(pool)
-        add_batch([l], pool[:3500], mock=True, quiet=True, nested=True, tag="huge-project")
+        picked, total = [], 0
+        for s in pool:
+            picked.append(s)
+            total += len(s.data)
+            if total > 22_000_000:
+                break
+        add_batch([l], picked, mock=True, quiet=True, nested=True, tag="huge-project")
+        batches.insert(0, batches.pop())
     return batches
 
 
@@ -191,6 +200,45 @@ def write_project(root, files):
         with open(p, "wb") as f:
             f.write(data)
     return proj
+
+
+def bundle_hash(df):
+    """Canonical content hash of a GIR bundle (column order and NaN/None spelling do not matter)."""
+    import hashlib
+    h = hashlib.sha256()
+    for r in lianrun.rows_as_dicts(df):
+        h.update(json.dumps({k: (float(v) if isinstance(v, (int, float)) and not isinstance(v, bool) else str(v))
+                             for k, v in r.items()}, sort_keys=True).encode())
+        h.update(b"\n")
+    return f"{len(df)}:{h.hexdigest()[:24]}"
+
+
+def run_cli(job):
+    """Forked child that only spawns the true CLI (`python src/lian/main.py lang ...`) in a fresh interpreter."""
+    import subprocess
+    sc = os.path.join(common.scratch(), f"c03cli_{os.getpid()}")
+    os.makedirs(sc, exist_ok=True)
+    files = [(rel, s.data if isinstance(s, Src) else s) for rel, s in job["files"]]
+    proj = write_project(sc, files)
+    st = lianrun.write_settings(os.path.join(sc, "settings"))
+    ws = os.path.join(sc, "ws")
+    argv = lianrun.lian_argv("lang", ",".join(job["langs"]), [proj], ws, st,
+                             ["-q"] + ([] if job.get("mock", True) else ["--nomock"]))
+    # /venv carries an editable install of /repo/src; PYTHONPATH makes the tree under test win when LIAN_REPO is a copy
+    env = dict(os.environ, PYTHONHASHSEED="0", PYTHONDONTWRITEBYTECODE="1", PYTHONWARNINGS="ignore",
+               PYTHONPATH=os.path.join(common.REPO, "src"))
+    p = subprocess.run([sys.executable, os.path.join(common.REPO, "src", "lian", "main.py")] + argv[1:],
+                       cwd=sc, env=env, stdout=subprocess.PIPE, stderr=subprocess.PIPE, timeout=300)
+    err = p.stderr.decode("utf-8", "replace")
+    out = {"rc": p.returncode, "traceback": "Traceback (most recent call last)" in err, "stderr_tail": err[-2500:],
+           "bundle_hash": None}
+    try:
+        df = lianrun.read_bundles(lianrun.ws_dir(ws), "frontend", "gir")
+        if df is not None:
+            out["bundle_hash"] = bundle_hash(df)
+    except Exception as e:
+        out["bundle_hash"] = f"unreadable: {type(e).__name__}"
+    return out
 
 
 def run_batch(job):
@@ -257,8 +305,8 @@ def run_batch(job):
         out["lost_units"] = [unit_rel.get(uid, "?") for uid in rec.order
                              if rec.units[uid].status == "gir" and uid not in in_bundle]
         out["ordered_units"] = sum(1 for x in V.per_unit.values() if x["groups"] >= 2)
-        if job.get("want_rows"):
-            out["rows"] = lianrun.rows_as_dicts(df)
+        if job.get("want_hash"):
+            out["bundle_hash"] = bundle_hash(df)
     elif lowered:
         out["bundle"] = "unreadable" if read_error else "missing-although-units-were-lowered"
         if len(files) == 1:
@@ -322,12 +370,9 @@ class Driver:
     def __init__(self, chk):
         self.chk = chk
         self.thorough = chk.tier == "thorough"
-        self.timeout = 90.0 if not self.thorough else 400.0
+        self.timeout = 120.0 if not self.thorough else 900.0
         self.crashes = {}       # sig -> {"n":, "witnesses": [(size, job, rel, src)], "tb":, "where", "message"}
         self.struct = {}        # sig -> {"n":, "witnesses": [(job, v)]}
-        self.quits = {}
-        self.files_by_lang = {}
-        self.kinds = {}
         self.ops = {}
         self.body_cols = set()
         self.derived = set()
@@ -362,9 +407,6 @@ class Driver:
                 if r.status == "ok":
                     self.absorb(job, r.value)
                     continue
-                if os.environ.get("C03_DEBUG"):
-                    print("DEBUG batch died:", r.status, len(job["files"]), job["langs"], str(r.value)[-1500:],
-                          r.log_text(600), flush=True)
                 if len(job["files"]) > 1:
                     chk.count(f"batches that ended with status '{r.status}' and were bisected")
                     self.split(job, nxt)
@@ -482,7 +524,7 @@ class Driver:
                 if s is not None and len(ent["witnesses"]) < 40:
                     ent["witnesses"].append((len(s.data), job, rel, s))
             elif status == "quit":
-                chk.count(f"handled exits: {lang}: {fn} ({where})")
+                chk.count(f"handled exits (SystemExit with diagnostic) inside the per-file entry: {lang}: {fn}")
         for k, n in v["stats"].items():
             chk.count(k, n)
         for l, ops in v["ops"].items():
@@ -550,6 +592,64 @@ class Driver:
                 chk.fail(sig, desc, case)
         chk.count("distinct crash signatures confirmed by an unwrapped run", len(confirmed))
         self.confirmed = confirmed
+
+    # ---- phase 2b: the same crash witnesses through the true CLI in a fresh interpreter ------------------
+    def cli_confirm(self, limit):
+        chk = self.chk
+        jobs = []
+        for sig, lst in sorted(getattr(self, "confirmed", {}).items())[:limit]:
+            j = dict(lst[0][0])
+            j["sig"] = sig
+            jobs.append(j)
+        for r in forkpool.run_jobs(run_cli, jobs, timeout=330, tag="c03cli"):
+            if r.status != "ok":
+                chk.count(f"true CLI confirmation runs that did not complete ({r.status})")
+                continue
+            chk.count("crash signatures re-run through the true CLI")
+            v = r.value
+            if v["traceback"] and v["rc"] != 0:
+                lang = r.item["sig"].split(":")[1]
+                m = re.findall(r"^(\w+(?:\.\w+)*(?:Error|Exception|Exit|Interrupt)\w*)", v["stderr_tail"], re.M)
+                et = m[-1].split(".")[-1] if m else "?"
+                if sig_from_traceback_text(lang, et, v["stderr_tail"]) == r.item["sig"]:
+                    chk.count("crash signatures reproduced by the true CLI (non-zero exit + same traceback signature)")
+                else:
+                    chk.count("true CLI died with a traceback of a different signature")
+            else:
+                chk.note_inconclusive(f"harness: {r.item['sig']} kills the forked unwrapped run but the true CLI "
+                                      f"exited {v['rc']} without a traceback")
+
+    # ---- phase 4: a few projects through the true CLI; the bundle must equal the forked, monitored run's ---
+    def cli_crosscheck(self, batches, k):
+        chk = self.chk
+        # single-file projects without the extern mocks: unit ids do not depend on directory listing order
+        picks = [b for b in batches if len(b["files"]) == 1][:k]
+        jobs_a, jobs_b = [], []
+        for n, b in enumerate(picks):
+            j = dict(b, mock=False, quiet=True, want_hash=True, key=n)
+            jobs_a.append(j)
+            jobs_b.append(dict(j))
+        got = {}
+        for r in forkpool.run_jobs(run_batch, jobs_a, timeout=self.timeout, tag="c03xa"):
+            if r.status == "ok":
+                got.setdefault(r.item["key"], {})["fork"] = r.value.get("bundle_hash")
+        for r in forkpool.run_jobs(run_cli, jobs_b, timeout=330, tag="c03xb"):
+            if r.status == "ok":
+                got.setdefault(r.item["key"], {})["cli"] = (r.value["bundle_hash"], r.value["rc"],
+                                                             r.value["traceback"])
+        for n, d in sorted(got.items()):
+            if "fork" not in d or "cli" not in d:
+                continue
+            h, rc, tb = d["cli"]
+            if tb:
+                chk.count("cross-check projects on which the true CLI died with a traceback (judged by the crash path)")
+                continue
+            chk.count("projects run through both the forked monitored run and the true CLI")
+            if h == d["fork"]:
+                chk.count("true CLI bundle identical to the forked monitored run's bundle")
+            else:
+                chk.note_inconclusive(f"harness: forked monitored run and true CLI disagree on the bundle of "
+                                      f"{picks[n]['files'][0][0]}: {d['fork']} vs {h}")
 
     # ---- phase 3: minimise structure violations to single-file projects when possible -------------------
     def settle_structure(self):
@@ -620,9 +720,16 @@ def main():
     batches = build_batches(chk, langs, rng)
     chk.count("projects generated", len(batches))
     d = Driver(chk)
-    d.run_all(batches)
-    d.confirm_crashes()
-    d.settle_structure()
+    import time
+    phases = {}
+    for name, fn in (("run_all", lambda: d.run_all(batches)), ("confirm_crashes", d.confirm_crashes),
+                     ("cli_confirm", lambda: d.cli_confirm(6 if chk.tier == "quick" else 40)),
+                     ("settle_structure", d.settle_structure),
+                     ("cli_crosscheck", lambda: d.cli_crosscheck(batches, 6 if chk.tier == "quick" else 40))):
+        t = time.time()
+        fn()
+        phases[name] = round(time.time() - t, 1)
+    chk.extra["phase_wall_s"] = phases
     # ---- evidence ---------------------------------------------------------------------------------------
     chk.extra["distinct_operations_seen"] = {l: sorted(o) for l, o in sorted(d.ops.items())}
     chk.extra["distinct_operations_total"] = len(set().union(*d.ops.values())) if d.ops else 0
@@ -653,6 +760,7 @@ def main():
     chk.require("units with a %unit_init", 300 if not thorough else 9_000)
     chk.require("files of kind mutant that emitted GIR", 300 if not thorough else 12_000)
     chk.require("distinct operations seen", 60)
+    chk.require("true CLI bundle identical to the forked monitored run's bundle", 3 if not thorough else 20)
     for l in langs:
         chk.require(f"files that emitted GIR [{l}]", 15 if not thorough else 300)
     chk.assumptions += [
